@@ -1182,7 +1182,7 @@ namespace bluetoe {
                 static constexpr std::size_t maximum_pdu_size = 253u;
                 static constexpr std::size_t header_size      = 2u;
 
-                if ( end_ - current_ >= static_cast< std::ptrdiff_t >( header_size ) )
+                if ( !has_error_ && end_ - current_ >= static_cast< std::ptrdiff_t >( header_size ) )
                 {
                     const std::size_t max_data_size = std::min< std::size_t >( end_ - current_, maximum_pdu_size + header_size ) - header_size;
 
@@ -1205,6 +1205,13 @@ namespace bluetoe {
                             current_ += static_cast< std::uint8_t >( read.buffer_size );
                         }
                     }
+                    else if ( first_ && !has_error_ )
+                    {
+                        // the first attribute of the requested type can not be read: the request will be answered with this error
+                        has_error_   = true;
+                        error_       = rc;
+                        error_index_ = index;
+                    }
                 }
             }
 
@@ -1217,6 +1224,9 @@ namespace bluetoe {
                 , end_( end )
                 , size_( 0 )
                 , first_( true )
+                , has_error_( false )
+                , error_( details::attribute_access_result::success )
+                , error_index_( 0 )
                 , config_( config )
                 , security_( security )
                 , server_( server )
@@ -1226,6 +1236,21 @@ namespace bluetoe {
             std::uint8_t size() const
             {
                 return current_ - begin_;
+            }
+
+            bool has_error() const
+            {
+                return has_error_;
+            }
+
+            details::attribute_access_result error() const
+            {
+                return error_;
+            }
+
+            std::size_t error_index() const
+            {
+                return error_index_;
             }
 
             std::uint8_t data_size() const
@@ -1243,6 +1268,9 @@ namespace bluetoe {
             std::uint8_t*   end_;
             std::uint8_t    size_;
             bool            first_;
+            bool            has_error_;
+            details::attribute_access_result error_;
+            std::size_t     error_index_;
             details::client_characteristic_configuration config_;
             connection_security_attributes security_;
             Server&         server_;
@@ -1268,6 +1296,11 @@ namespace bluetoe {
             output[ 0 ] = bits( details::att_opcodes::read_by_type_response );
             output[ 1 ] = iterator.data_size();
             out_size = 2 + iterator.size();
+        }
+        else if ( iterator.has_error() )
+        {
+            error_response( *input, access_result_to_att_code( iterator.error(), details::att_error_codes::read_not_permitted ),
+                handle_mapping::handle_by_index( iterator.error_index() ), output, out_size );
         }
         else
         {
